@@ -14,7 +14,7 @@ func init() {
 type engineRunner struct{ engineImpl }
 
 func (r *engineRunner) Do(line string) string {
-	if strings.HasPrefix(line, "ref ") || line == "expect-recovered" {
+	if strings.HasPrefix(line, "ref ") || line == "expect-recovered" || line == "expect-either" || line == "ref-restart" || line == "ref-unknown" {
 		return "ok"
 	}
 	return r.engineImpl.Do(line)
